@@ -1,5 +1,5 @@
 # Data for tools_manifest.py (exec'd): CLAIMS, NA, ENGINES, FIX_COMMITS
-FIX_COMMITS = ["14a7bc4", "34fd9b1", "f8f4ffb", "61fde54", "7a81c99", "eafa42d", "5421546", "4559052", "c41828a", "7b438d4", "4a48516", "61b5e06", "42978b1", "eea3f8e", "9d23db9", "daf7731", "0f1f996", "7d5224d", "eade19f"]
+FIX_COMMITS = ["14a7bc4", "34fd9b1", "f8f4ffb", "61fde54", "7a81c99", "eafa42d", "5421546", "4559052", "c41828a", "7b438d4", "4a48516", "61b5e06", "42978b1", "eea3f8e", "9d23db9", "daf7731", "0f1f996", "7d5224d", "eade19f", "93aedf4"]
 ENGINES = [
     {"name": "A-index", "path": "engine/index.py, engine/tables.py", "serves_properties": ["C01", "C14"], "kind_free_text": "package index: imports, classes, C3 MRO, constants, declaration tables, call graph"},
     {"name": "C-arrays", "path": "engine/arrays.py", "serves_properties": ["C02", "C03", "C04", "C05", "C06", "C07", "C08", "C09"], "kind_free_text": "abstract interpreter over the 36 execute bodies and helpers: kind, alias, mask coverage, value dependence, hidden-payload flow, shape, dtype, clamp range, layer selection; closed numpy vocabulary"},
